@@ -417,11 +417,13 @@ class AudioThread(threading.Thread):
       #Below is a faster way to call:
       #  self.stream.write(chunk, self.chunk_size)
       self.write_stream(st, chunk, self.chunk_size, False)
-      if not self.go.is_set():
+      if self.halting or not self.go.is_set():
         self.stream.stop_stream()
         if self.halting:
           break
         self.go.wait()
+        if self.halting: # Stopped while it was paused
+          break
         self.stream.start_stream()
 
     # Finished playing! Destructor-like step: let's close the thread
@@ -434,7 +436,7 @@ class AudioThread(threading.Thread):
     """ Stops the playing thread and close """
     with self.lock:
       self.halting = True
-      self.go.clear()
+      self.go.set() # Wakes the thread up if it's paused (it'll see "halting")
 
   def pause(self):
     """ Pauses the audio. """
